@@ -52,7 +52,10 @@ COQ_TARGETS = ["theories/C07/Props.v", "theories/C07/Link.v", "theories/C07/Expl
 RULE = ("scripts for MapReduce/MapReduceChan/MapReduceVoid/ForEach/Finish/FinishVoid: 0-20 items (64 in the big "
         "class), workers in {-1,0,1,2,3,4,8,default}, per-item mapper scripts of write/cancel(err|nil)/panic/"
         "wait-for-return/cancel-context actions, reducer = receive all or j values then write 0-2 times or panic, "
-        "generator panic, context none/done-before/cancelled-by-a-mapper; every callback perturbs the schedule from "
+        "generator panic, context none/done-before/cancelled-by-a-mapper/cancelled-by-the-driver-while-the-generator-waits-"
+        "at-a-gate; values = tagged ints plus untyped nil, int 0, empty string, nil pointer in an any (items, mapper "
+        "writes, reducer writes); cancel errors = value errors, untyped nil, typed nil pointer / nil slice, pointer; "
+        "direct Set/Load streams on errorx.AtomicError; every callback perturbs the schedule from "
         "the case seed (Gosched / microsecond sleeps); classes clean, cancel, panic, ctx, big, boundary; "
         "non-trivial = at least 2 items mapped and (>=2 values received or a cancel/panic/ctx event observed); "
         "distinct = distinct canonical case JSON")
@@ -66,17 +69,55 @@ ASSUMPTIONS = ["finish's close(done);close(output) and the other merged adjacent
                "(c07_third_write_refuted shows the third one blocks for ever)",
                "model_ok only for <= 6 items and <= 3 workers; larger cases are checked by spec_ok only"]
 
-FNS = ["MapReduce", "MapReduceVoid", "MapReduceChan", "ForEach", "Finish", "FinishVoid"]
+FNS = ["MapReduce", "MapReduceVoid", "MapReduceChan", "ForEach", "Finish", "FinishVoid", "AtomicError"]
 
 
 def _w(k):
-    return {"op": "write", "k": k}
+    return {"op": "write", "k": k + 10}
 
 
-def _case(rng, fn="MapReduce", workers=2, noopt=False, items=(), gpanic=-1, rtake=-1, rafter=(), ctx="none", cls="clean"):
-    return {"fn": fn, "workers": workers, "noopt": noopt, "items": [{"acts": list(a)} for a in items],
-            "gpanic": gpanic, "rtake": rtake, "rafter": list(rafter), "ctx": ctx,
-            "seed": rng.randrange(1 << 30), "cls": cls}
+def _case(rng, fn="MapReduce", workers=2, noopt=False, items=(), gpanic=-1, rtake=-1, rafter=(), ctx="none", cls="clean",
+          gate1=0, release="now"):
+    c = {"fn": fn, "workers": workers, "noopt": noopt, "items": [{"acts": list(a)} for a in items],
+         "gpanic": gpanic, "rtake": rtake, "rafter": list(rafter), "ctx": ctx,
+         "seed": rng.randrange(1 << 30), "cls": cls, "nilitem1": 0, "gate1": gate1, "release": release}
+    return _spice(rng, c)
+
+
+# value codes < 10 are raw special values (0 untyped nil, 1 int 0, 2 "", 3 nil *int inside an any): they carry no
+# origin tag, so each is written by at most one mapper write per case (the encoder maps it back to that write)
+RAW = [0, 1, 2, 3]
+TYPED_NIL_ERRS = [1, 2, 3]      # 1 nil *T, 2 nil slice type, 3 non-nil *T  (0 = untyped nil = cancelnil)
+
+
+def _spice(rng, c):
+    """nil / zero values in items, mapper writes, reducer writes; typed-nil errors in cancel / Finish"""
+    fn = c["fn"]
+    n = len(c["items"])
+    used = {a["k"] for it in c["items"] for a in it["acts"] if a["op"] == "write" and a["k"] < 10}
+    if fn in ("MapReduce", "MapReduceChan", "MapReduceVoid") and n and rng.random() < 0.35:
+        for code in rng.sample(RAW, rng.choice([1, 1, 2])):
+            if code in used:
+                continue
+            it = c["items"][rng.randrange(n)]["acts"]
+            # before the first cancel/panic/waitret of that mapper so that clean scripts stay clean scripts
+            stop = next((j for j, a in enumerate(it) if a["op"] != "write"), len(it))
+            it.insert(rng.randint(0, stop), {"op": "write", "k": code})
+            used.add(code)
+    if fn in ("MapReduce", "MapReduceChan"):
+        pool = rng.sample([0, 1, 2, 3, 17, 18], 2)
+        j = 0
+        for a in c["rafter"]:
+            if a["op"] == "write" and rng.random() < 0.6:
+                a["k"] = pool[j % 2]
+                j += 1
+    if fn in ("MapReduce", "MapReduceChan", "MapReduceVoid", "ForEach") and n and rng.random() < 0.2:
+        c["nilitem1"] = 1 + rng.randrange(n)
+    for it in c["items"]:
+        for a in it["acts"]:
+            if a["op"] == "cancel" and rng.random() < 0.3:
+                a["k"] = rng.choice(TYPED_NIL_ERRS)
+    return c
 
 
 def _workers(rng):
@@ -222,10 +263,39 @@ def gen_ctx(rng, tier):
     return _case(rng, fn=fn, workers=_workers(rng), items=items, rtake=rtake, rafter=rafter, ctx=ctx, cls="ctx")
 
 
+def gen_gate(rng, tier):
+    """the driver cancels the context while the generator waits at a gate before item g: in-flight mappers finish, the
+    reducer (range over the pipe) writes in that window - before the caller has returned (release after the reducer
+    returned) or after it (a mapper that only returns after the call, release at once)"""
+    n = rng.randint(2, 8)
+    g = rng.randint(1, n - 1)
+    fn = rng.choice(["MapReduce"] * 3 + ["MapReduceChan", "MapReduceVoid"])
+    items = [_writes(rng, 2) for _ in range(n)]
+    release = rng.choice(["re", "re", "now"])
+    if release == "now" and rng.random() < 0.7:
+        items[g - 1].insert(rng.choice([0, len(items[g - 1])]), {"op": "waitret"})   # last item before the gate: in flight
+    rafter = [] if fn == "MapReduceVoid" else [_w(7 + j) for j in range(rng.choice([0, 1, 1, 2]))]
+    return _case(rng, fn=fn, workers=_workers(rng), items=items, rtake=-1, rafter=rafter, ctx="gate", cls="gate",
+                 gate1=g + 1, release=release)
+
+
+def gen_ae(rng, tier):
+    """direct stream on errorx.AtomicError: Set of nil / typed nils / pointer / value errors, Load in between"""
+    ops = []
+    for _ in range(rng.randint(2, 10)):
+        if rng.random() < 0.55:
+            ops.append({"op": "set", "k": rng.choice([0, 0, 1, 1, 2, 3, 100, 101])})
+        ops.append({"op": "load"})
+    c = {"fn": "AtomicError", "workers": 1, "noopt": False, "items": [], "gpanic": -1, "rtake": -1, "rafter": [],
+         "ctx": "none", "seed": rng.randrange(1 << 30), "cls": "atomicerror", "nilitem1": 0, "gate1": 0,
+         "release": "now", "aeops": ops}
+    return c
+
+
 def gen_boundary(rng, tier):
     r = rng.random()
     if r < 0.3:
-        return _case(rng, fn=rng.choice(FNS), workers=rng.choice([-1, 0, 1, 16]), items=[], rtake=rng.choice([-1, 0]),
+        return _case(rng, fn=rng.choice(FNS[:6]), workers=rng.choice([-1, 0, 1, 16]), items=[], rtake=rng.choice([-1, 0]),
                      rafter=[], cls="boundary")
     if r < 0.6:   # more items than workers, every worker busy writing, one-slot pool
         n = rng.randint(5, 12)
@@ -270,9 +340,13 @@ def _generate(rng, tier, n):
             c = gen_cancel(rng, tier)
         elif r < 0.74:
             c = gen_panic(rng, tier)
-        elif r < 0.86:
+        elif r < 0.82:
             c = gen_ctx(rng, tier)
-        elif r < 0.93:
+        elif r < 0.88:
+            c = gen_gate(rng, tier)
+        elif r < 0.90:
+            c = gen_ae(rng, tier)
+        elif r < 0.94:
             c = gen_clean(rng, tier, big=True) if rng.random() < 0.5 else gen_cancel(rng, tier, big=True)
         else:
             c = gen_boundary(rng, tier)
@@ -334,7 +408,7 @@ def _optn(k):
     return "None" if k < 0 else "(Some %s)" % cnat(k)
 
 
-_EV1 = {"sent": "ESent", "gp": "EGPanic", "ms": "EMS", "me": "EME", "ce": "ECE", "wb": "EWB", "we": "EWE", "wto": "EWTo",
+_EV1 = {"gw": "EGW", "sent": "ESent", "gp": "EGPanic", "ms": "EMS", "me": "EME", "ce": "ECE", "wb": "EWB", "we": "EWE", "wto": "EWTo",
         "cx": "ECx", "rw": "ERW", "rd": "ERD", "rp": "ERP"}
 _EV2 = {"wr": "EWr", "wd": "EWd", "pn": "EPn", "rr": "ERR"}
 
@@ -351,6 +425,8 @@ def _ev(e):
         return "ERE"
     if k == "ret":
         return "ERet"
+    if k == "gr":
+        return "EGR"
     raise ValueError(k)
 
 
@@ -379,16 +455,44 @@ def _out(o):
     return "XOther"
 
 
+def _untag(case, trace):
+    """raw special values reach the reducer without origin tag: rr(-1, code) |-> rr(item, code) for the unique mapper
+    write of that code in the script (the generator writes each raw code at most once per case)"""
+    owner = {}
+    for i, it in enumerate(case["items"]):
+        for a in it["acts"]:
+            if a["op"] == "write" and a["k"] < 10:
+                owner.setdefault(a["k"], i)
+    out = []
+    for e in trace:
+        if e[0] == "rr" and e[1] < 0:
+            e = ["rr", owner.get(e[2], len(case["items"])), e[2]]
+        out.append(e)
+    return out
+
+
+def _aeop(a):
+    if a["op"] == "load":
+        return "AELoad"
+    return "AESet %s" % ("None" if a["k"] == 0 else "(Some %s)" % cnat(a["k"]))
+
+
 def encode(case, obs):
     if "outcome" not in obs:
         obs = {"outcome": {"kind": "other"}, "trace": [], "leaked": 0}
+    obs = dict(obs, trace=_untag(case, obs["trace"]))
     small = (len(case["items"]) <= 6 and _eff_workers(case) <= 3 and
              sum(len(i["acts"]) for i in case["items"]) <= 24)
-    ctx = {"none": 0, "pre": 1, "live": 2}[case["ctx"]]
-    return "mkcase %s %s %s %s %s %s %s %s %s (%s) %s %s" % (
+    ctx = {"none": 0, "pre": 1, "live": 2, "gate": 3}[case["ctx"]]
+    g1 = case.get("gate1", 0)
+    gate = "None" if g1 <= 0 else "(Some %s)" % cnat(g1 - 1)
+    aeops = clist([_aeop(a) for a in case.get("aeops", [])])
+    aeobs = clist([cZ(v) for v in obs.get("ae", [])])
+    return "mkcase %s %s %s %s %s %s %s %s %s %s %s %s (%s) %s %s" % (
         cnat(FNS.index(case["fn"])), cZ(case["workers"]), cbool(bool(case.get("noopt"))),
         clist([clist([_mact(a) for a in it["acts"]]) for it in case["items"]]),
         _optn(case["gpanic"]), _optn(case["rtake"]), clist([_ract(a) for a in case["rafter"] if a["op"] != "sleep"]), cnat(ctx),
+        gate, aeops, aeobs,
         clist([_ev(e) for e in obs["trace"]]), _out(obs["outcome"]), cnat(obs["leaked"]), cbool(small))
 
 
@@ -423,6 +527,18 @@ def bucket(case, obs):
         out.append("reducer:stop-early")
     if len(case["items"]) <= 6 and w <= 3:
         out.append("model_ok:applies")
+    acts = [a for it in case["items"] for a in it["acts"]]
+    if any(a["op"] == "write" and a["k"] < 10 for a in acts):
+        out.append("value:raw-mapper-write")
+    for a in case["rafter"]:
+        if a["op"] == "write" and a["k"] < 10:
+            out.append("value:reducer-writes-" + (["nil", "int0", "empty-string", "typed-nil-ptr"][a["k"]] if a["k"] < 4 else "raw"))
+    if case.get("nilitem1", 0):
+        out.append("value:nil-item")
+    if any(a["op"] == "cancel" and a["k"] < 10 for a in acts):
+        out.append("error:typed-nil-or-ptr")
+    if case.get("gate1", 0):
+        out.append("gate:" + case.get("release", ""))
     return out
 
 
